@@ -14,7 +14,7 @@ const int kIds = 5;
 
 struct Faces {
   int n;
-  int v[4][3];
+  int v[6][3];
 };
 
 // idx -> F faces, each face one of ids^3 triples (digit = a*ids*ids+b*ids+c).
@@ -256,7 +256,8 @@ int main(int argc, char **argv) {
   const bool slice = R.flag("asan-slice");
   R.distinct_bits = 24;
   R.rule =
-      "every list of F triangles over vertex ids {0..4} (all 125^F lists, face order and corner rotation kept) is "
+      "every list of F<=4 triangles over vertex ids {0..4} (all 125^F lists, face order and corner rotation kept), and beyond the "
+      "property's bound every list of 5 triangles over 3 ids (quick) / 5 over 4 ids and 6 over 3 ids (thorough), is "
       "passed to CornerTable::Create; states = distinct resulting connectivity structures (opposite table, split-vertex "
       "pattern, degenerate-face pattern); non-trivial = input lists (distinct by construction) that produce at least "
       "one opposite pairing or a split non-manifold vertex";
@@ -272,6 +273,10 @@ int main(int argc, char **argv) {
     add_space(R, "F3", 3, kIds, true, true, 1);
     // the whole bound named by the property (2.44e8 lists) is cheap enough for the quick tier as well
     add_space(R, "F4", 4, kIds, true, true, 1);
+    // beyond the property's own bound: more faces over fewer ids (edges with many incident faces, repeated faces)
+    add_space(R, "F5_ids3", 5, 3, true, true, 2);
+    add_space(R, "F6_ids3", 6, 3, false, true, 3);
+    add_space(R, "F5_ids4", 5, 4, false, true, 2);
   } else {
     // Same enumeration under ASan+UBSan: full F<=2, F3 (quick: every 16th
     // chunk; thorough: all), thorough also F4 over 4 ids.
